@@ -104,6 +104,29 @@ func init() {
 				cse.TimeoutMS = 60000
 				cs = append(cs, cse)
 			}
+			// a far-away max-iterations does not touch what a tick requests: values twice the limit, two workers
+			for i := 0; i < 1; i++ {
+				lim := 1_000_000
+				p := c09Params{Interval: 20000, StallAt: -1, StopAt: 4}
+				for k := 0; k <= 5; k++ {
+					p.Values = append(p.Values, 2*lim+k*7+3)
+				}
+				p.Spec = engine.Spec{Mode: "custom", CustomIntervalUS: 20000, CustomRates: p.Values, Concurrency: 2, MaxDurationMS: 60000, MaxIterations: uint64(lim), IgnoreDropped: true}
+				p.Desc = fmt.Sprintf("mode=custom interval=20000us c=2 values~%d max-iterations=%d stopAt=4 (requests above the limit)", 2*lim, lim)
+				cse := core.MkCase("C09", "cadence", 800+i, seed, p)
+				cse.Procs = 16
+				cse.TimeoutMS = 120000
+				cs = append(cs, cse)
+			}
+			// triggering that is over before it begins (max-duration inside the 10 ms guard) still evaluates once
+			for i, d := range []int{1, 8} {
+				p := c09Params{Interval: 3600_000_000, StallAt: -1, StopAt: -1}
+				p.Spec = engine.Spec{Mode: "custom", CustomIntervalUS: 3600_000_000, CustomRates: []int{3}, Concurrency: 4, MaxDurationMS: d, IgnoreDropped: true}
+				p.Desc = fmt.Sprintf("ended-before-start max-duration=%dms", d)
+				cse := core.MkCase("C09", "deadfirst", i, seed, p)
+				cse.TimeoutMS = 60000
+				cs = append(cs, cse)
+			}
 			// the run ends by its duration a little after a tick: that tick's value still is that tick's request
 			nlt := 6
 			if tier == "thorough" {
@@ -171,7 +194,7 @@ func init() {
 			}
 			return cs
 		},
-		Kinds:  map[string]core.RunFunc{"cadence": c09Cadence, "first": c09First, "zero": c09Zero, "fastticks": c09FastTicks, "lasttick": c09LastTick},
+		Kinds:  map[string]core.RunFunc{"cadence": c09Cadence, "first": c09First, "zero": c09Zero, "fastticks": c09FastTicks, "lasttick": c09LastTick, "deadfirst": c09DeadFirst},
 		Floors: map[string]int64{"evaluations_checked": 300, "sum_checked_runs": 10, "first_runs": 4, "zero_runs": 4},
 	})
 }
@@ -232,6 +255,35 @@ func c09LastTick(c *core.Case, o *core.Outcome) {
 		o.Sig("lasttick:interval=%dus:sure=%d:all=%d", p.Interval, nSure, nAll)
 	}
 	o.Sample = map[string]any{"case": p.Desc, "sure_evaluations": nSure, "all_evaluations": nAll, "sure_sum": sure, "reported": got}
+}
+
+// c09DeadFirst: the trigger's context has already ended when triggering starts; the rate is still evaluated
+// once at that moment (and nothing is requested).
+func c09DeadFirst(c *core.Case, o *core.Outcome) {
+	var p c09Params
+	c.Params(&p)
+	l := engine.NewLog()
+	var evals, started atomic.Int64
+	scenario := func(t *f1testing.T) f1testing.RunFn {
+		return func(t *f1testing.T) { started.Add(1) }
+	}
+	hooks := &engine.Hooks{OnRate: func(k int, _ time.Time, v int) int { evals.Add(1); return v }}
+	r := engine.Execute(context.Background(), p.Spec, l, scenario, hooks, nil)
+	if r.NewErr != nil {
+		o.Inconc("harness: cannot build run: %v", r.NewErr)
+		return
+	}
+	o.Events = evals.Load() + 1
+	if evals.Load() != 1 {
+		o.Violate("deadfirst:"+p.Desc, "triggering started with its context already over: the rate was evaluated %d times, expected exactly the one evaluation made as triggering starts (%s)", evals.Load(), p.Desc)
+		return
+	}
+	if started.Load() != 0 {
+		o.Violate("deadfirst-started:"+p.Desc, "%d iterations started although triggering was over before it began (%s)", started.Load(), p.Desc)
+		return
+	}
+	o.AddObs("evaluations_checked", 1)
+	o.Sig("deadfirst:%dms", p.Spec.MaxDurationMS)
 }
 
 func c09Cadence(c *core.Case, o *core.Outcome) {
